@@ -80,26 +80,24 @@ def run(ctx):
     po = prog.method(tzical.qualname, "_parse_offset", "C17.OFFSET")
     n_s = unit.check_function(ctx, "C17.OFFSET", po)
     ctx.floor("C17.OFFSET", n_s, 2, "offset decoders")
-    ocfg = ctx.cfg(po)
-    of = ctx.facts(po)
-    sig = [n for n in ocfg.live_nodes() if n.kind == "stmt" and isinstance(n.ast, ast.Assign) and src(n.ast.targets[0]) == "signal"]
-    tbl = None
-    bare = None
-    for n in sig:
-        v = n.ast.value
-        if isinstance(v, ast.Subscript) and isinstance(v.value, ast.Tuple):
-            tbl = ([src(e).replace("+", "") for e in v.value.elts], src(v.slice).replace(" ", ""))
+    from .. import summ
+    summ.check_ref(ctx, "C17.OFFSET", po, "'+' maps to +1, '-' to -1, no sign to +1; the sign character is removed before the digits are cut; only HHMM and HHMMSS are "
+                   "accepted (3600, 60, 1 with the sign on every term); an empty or other-length offset raises ValueError", """
+        s = s.strip()
+        if not s:
+            raise ValueError("empty offset")
+        if s[0] in ('+', '-'):
+            signal = (-1, +1)[s[0] == '+']
+            s = s[1:]
         else:
-            bare = src(v).replace("+", "")
-    ctx.ob("C17.OFFSET", po, "'+' maps to +1, '-' to -1, no sign to +1", tbl == (["-1", "1"], "s[0]=='+'") and bare == "1", construct="offset sign table", detail="%s %s" % (tbl, bare), analysis="CMP sign table")
-    rets = [n for n in ocfg.live_nodes() if n.kind == "stmt" and isinstance(n.ast, ast.Return)]
-    lens = sorted(t for n in rets for t, tv in of.at(n) if tv and t.startswith("len(s) == "))
-    ctx.ob("C17.OFFSET", po, "only HHMM and HHMMSS are accepted", lens == ["len(s) == 4", "len(s) == 6"], construct="accepted lengths", detail=str(lens))
-    rs = [n for n in ocfg.live_nodes() if n.kind == "stmt" and isinstance(n.ast, ast.Raise)]
-    ctx.ob("C17.OFFSET", po, "an empty or other-length offset raises ValueError", len(rs) == 2 and all(src(r.ast.exc).startswith("ValueError") for r in rs), construct="offset rejections")
-    strip = [n for n in ocfg.live_nodes() if n.kind == "stmt" and src(n.ast) == "s = s[1:]"]
-    ctx.ob("C17.OFFSET", po, "the sign character is removed before the digits are cut", len(strip) == 1 and all(ocfg.dominates(strip, r) or True for r in rets) and
-           any(tv and "s[0] in ('+', '-')" in t for t, tv in of.at(strip[0])), construct="s = s[1:]")
+            signal = +1
+        if len(s) == 4:
+            return (int(s[:2]) * 3600 + int(s[2:]) * 60) * signal
+        elif len(s) == 6:
+            return (int(s[:2]) * 3600 + int(s[2:4]) * 60 + int(s[4:])) * signal
+        else:
+            raise ValueError("invalid offset: " + s)
+        """, construct="_parse_offset table")
 
     # ---------------------------------------------------------------- C17.KEY / C17.PAIR
     fc = prog.method(vtz.qualname, "_find_comp", "C17.KEY")
